@@ -163,3 +163,114 @@ func vDeclaredNumber(cfg *ResponseConfig, se segEntries, k int) int {
 	}
 	return sn + k
 }
+
+// ---- audio: the MPD's audio timeline entries are resolved by the server to the right reference segment ----
+
+func init() {
+	vHarnesses["vH_C02_audio_testpic2s"] = vH_C02_audio_testpic2s
+	vHarnesses["vH_C02_audio_bbb_ac3"] = vH_C02_audio_bbb_ac3
+	vHarnesses["vH_C02_text_testpic2s"] = vH_C02_text_testpic2s
+	vHarnesses["vH_C02_number_testpic2s_V300"] = vH_C02_number_testpic2s_V300
+	vHarnesses["vH_C02_number_testpic2s_thumbs"] = vH_C02_number_testpic2s_thumbs
+	vHarnesses["vH_C02_number_testpic2s_A48"] = vH_C02_number_testpic2s_A48
+	vHarnesses["vH_C02_number_wave2997"] = vH_C02_number_wave2997
+}
+
+func vH_C02_audio_testpic2s() { vC02Audio(vAsset_testpic_2s(), "V300", "A48", 5) }
+func vH_C02_audio_bbb_ac3()   { vC02Audio(vAsset_bbb_hevc_ac3_8s(), "1", "2", 5) }
+func vH_C02_text_testpic2s()  { vC02(vAsset_testpic_2s(), "imsc1_txt_sv", 1, 0, 5) }
+
+func vC02Audio(a *asset, videoID, audioID string, maxTsbd int) {
+	rep := a.Reps[audioID]
+	ref := a.refRep
+	startNr := vInt("startNr", 0, 1<<20)
+	startS := vInt("startS", 0, 1<<32-1)
+	tsbd := vInt("tsbd", 0, maxTsbd)
+	rel := vInt("rel1", 0, 1<<41)
+	now := 1000*startS + rel
+	cfg := vCfg(startS, startNr, tsbd)
+	cfg.SegTimelineFlag = true
+	refSE := a.generateTimelineEntries(videoID, calcWrapTimes(a, cfg, now, *m.Seconds2DurPtr(tsbd)), 0)
+	se := a.generateTimelineEntriesFromRef(refSE, audioID)
+	if refSE.startNr < 0 {
+		vReach("C02.audio.end-empty")
+		return
+	}
+	list := vExpand(se)
+	for k := range list {
+		e := list[k]
+		// the request the MPD implies: audio $Time$ = e.t, at the same instant
+		refMeta, err := findRefSegMetaFromTime(a, rep, e.t, cfg, now)
+		vAssert("C02.audio.listed-is-served", err == nil)
+		if err != nil {
+			continue
+		}
+		vAssert("C02.audio.resolves-to-reference-segment", int(refMeta.newNr) == startNr+e.idx)
+		rec := calcAudioSegRecipe(refMeta.newNr, refMeta.newTime, refMeta.newTime+uint64(refMeta.newDur),
+			uint64(ref.duration()), uint64(ref.MediaTimescale), rep)
+		vAssert("C02.audio.served-time", rec.startTime == e.t)
+		vAssert("C02.audio.served-dur", rec.endTime-rec.startTime == e.d)
+	}
+	last := list[len(list)-1]
+	_, errNext := findRefSegMetaFromTime(a, rep, last.t+last.d, cfg, now)
+	vAssert("C02.audio.next-is-too-early", vPhase(errNext) == 0)
+	vReach("C02.audio.end")
+}
+
+// ---- $Number$ templates: what the template implies as available is served ----
+
+func vH_C02_number_testpic2s_V300()   { vC02Number(vAsset_testpic_2s(), "V300", "video") }
+func vH_C02_number_testpic2s_thumbs() { vC02Number(vAsset_testpic_2s(), "thumbs", "image") }
+func vH_C02_number_testpic2s_A48()    { vC02Number(vAsset_testpic_2s(), "A48", "audio") }
+func vH_C02_number_wave2997() {
+	vC02Number(vAsset_WAVE_vectors_cfhd_sets_14_985_29_97_59_94_t1_2022_10_17(), "1", "video")
+}
+
+// vC02Number: with SegmentTemplate@duration/@timescale/@startNumber as written by the real
+// adjustAdaptationSetForSegmentNumber, segment number k is implied available from
+// AST + (k-startNumber+1)*duration/timescale until that instant + timeShiftBufferDepth; inside that window the
+// server serves it (constant-duration tables, so the implied instants are the real ones).
+func vC02Number(a *asset, repID, contentType string) {
+	rep := a.Reps[repID]
+	timing := rep
+	if contentType == "audio" {
+		timing = a.refRep
+	}
+	startNr := vInt("startNr", 0, 1<<20)
+	startS := vInt("startS", 0, 1<<32-1)
+	tsbd := vInt("tsbd", 0, 172800)
+	rel := vInt("rel1", 0, 1<<41)
+	idx := vInt("n", 0, 1<<26)
+	now := 1000*startS + rel
+	cfg := vCfg(startS, startNr, tsbd)
+	as := &m.AdaptationSetType{}
+	as.ContentType = m.RFC6838ContentTypeType(contentType)
+	as.SegmentTemplate = &m.SegmentTemplateType{}
+	as.Representations = []*m.RepresentationType{{Id: repID}}
+	err := adjustAdaptationSetForSegmentNumber(cfg, a, as)
+	vAssert("C02.number.adjust-ok", err == nil)
+	st := as.SegmentTemplate
+	vAssert("C02.number.startNumber", st.StartNumber != nil && int(*st.StartNumber) == startNr)
+	D, ts := int(*st.Duration), int(*st.Timescale)
+	// implied availability window of number startNr+idx (relative to AST, cross-multiplied to avoid rounding)
+	availTicks := (idx + 1) * D
+	if rel*ts >= 1000*availTicks && rel*ts <= 1000*availTicks+1000*tsbd*ts {
+		var e error
+		if contentType == "audio" {
+			_, e = findSegMetaFromNr(a, timing, uint32(startNr+idx), cfg, now) // audio is served through the reference track
+		} else {
+			_, e = findSegMetaFromNr(a, rep, uint32(startNr+idx), cfg, now)
+		}
+		vAssert("C02.number.implied-available-is-served", e == nil)
+	}
+	if rel*ts < 1000*availTicks {
+		var e error
+		if contentType == "audio" {
+			_, e = findSegMetaFromNr(a, timing, uint32(startNr+idx), cfg, now)
+		} else {
+			_, e = findSegMetaFromNr(a, rep, uint32(startNr+idx), cfg, now)
+		}
+		vAssert("C02.number.not-yet-implied-is-too-early", vPhase(e) == 0)
+	}
+	vReach("C02.number.end")
+}
